@@ -7,6 +7,7 @@ from __future__ import annotations
 
 import concurrent.futures
 import itertools
+import threading
 
 from vlib import env, sched
 from vlib.evidence import Result
@@ -58,6 +59,13 @@ def patch():
     _PATCHED = True
 
 
+_REAL_LOCK_TYPES = (type(threading.Lock()), type(threading.RLock()), threading.Condition)
+
+
+def _is_real_lock(o):
+    return isinstance(o, _REAL_LOCK_TYPES)
+
+
 def frame_filter(frame):
     """trace only frames of objects under test: their lock/condition is cooperative"""
     slf = frame.f_locals.get("self")
@@ -69,7 +77,11 @@ def frame_filter(frame):
             return True
     if type(slf).__name__ == "Delay":
         st = getattr(slf, "_state", None)
-        return isinstance(getattr(st, "_lock", None), sched.CoopRLock) or isinstance(getattr(slf, "_lock", None), sched.CoopRLock)
+        if isinstance(getattr(st, "_lock", None), sched.CoopRLock) or isinstance(getattr(slf, "_lock", None), sched.CoopRLock):
+            return True
+        # a Delay that holds no REAL lock is safe to park in as well (an implementation may create its lock late: the window
+        # before the lock exists is exactly where a check-then-act race would sit)
+        return not any(_is_real_lock(getattr(o, "_lock", None)) for o in (slf, st) if o is not None)
     if type(slf).__name__ == "Future":
         return True
     return False
